@@ -333,6 +333,83 @@ func runC07(c *ctx) {
 			}
 		}
 	}
+	// ---------- (b') slow readers: one party receives nothing until everybody else is stuck, then its backlog newest first ----------
+	{
+		starve := func(sp SessionSpec, seed int64, ref map[party.ID]string, sh shapeInfo, consistentOnly bool) {
+			for _, v := range sp.IDs {
+				for _, latest := range []bool{true, false} {
+					v, latest := v, latest
+					pn := fmt.Sprintf("starve-%s/latest-round-first=%v", v, latest)
+					s, order, res := c.runSchedule(sp, seed, func(*Sim) Policy { return policyStarve(v, latest) })
+					r := ref
+					if consistentOnly {
+						r = nil
+					}
+					c.checkRun(sp, seed, pn, s, order, res, r, sh)
+				}
+			}
+		}
+		holdOne := func(sp SessionSpec, seed int64, ref map[party.ID]string, sh shapeInfo, sample int) {
+			type hk struct {
+				v, f party.ID
+				k    int
+				b    bool
+			}
+			var all []hk
+			for _, v := range sp.IDs {
+				for _, f := range sp.IDs {
+					if f == v {
+						continue
+					}
+					for k := 1; k < sh.Final; k++ {
+						if sh.Bcast[k] {
+							all = append(all, hk{v, f, k, true})
+						}
+						if sh.P2P[k] != 0 {
+							all = append(all, hk{v, f, k, false})
+						}
+					}
+				}
+			}
+			if sample > 0 && len(all) > sample {
+				r := rand.New(rand.NewSource(seed + c.res.Seed))
+				r.Shuffle(len(all), func(i, j int) { all[i], all[j] = all[j], all[i] })
+				all = all[:sample]
+			}
+			for _, h := range all {
+				h := h
+				pn := fmt.Sprintf("hold-%s->%s/round%d/bcast=%v", h.f, h.v, h.k, h.b)
+				s, order, res := c.runSchedule(sp, seed, func(*Sim) Policy { return policyHoldOne(h.v, h.f, h.k, h.b) })
+				c.checkRun(sp, seed, pn, s, order, res, ref, sh)
+			}
+		}
+		ids := idsOf("alice", "bob", "carl")
+		spf := specFrostKeygen(ids, 1, false, []byte("kg-starve"))
+		refS, _, ref := c.runSchedule(spf, c.res.Seed+5, func(*Sim) Policy { return func(*Sim) (int, bool) { return 0, false } })
+		starve(spf, c.res.Seed+5, ref, refS.learnShape(), false)
+		holdOne(spf, c.res.Seed+5, ref, refS.learnShape(), 0)
+		// CMP key generation: its rounds 3 and 4 change the session hash in Finalize, so the order "all later broadcasts queued before
+		// the own earlier one arrives" matters there (safe primes from the cache; results are compared for completion only)
+		usePrimeCache()
+		spc := specCMPKeygen(ids, 1, []byte("kgc-starve"))
+		refC, _, _ := c.runSchedule(spc, c.res.Seed+6, func(*Sim) Policy { return func(*Sim) (int, bool) { return 0, false } })
+		shC := refC.learnShape()
+		vs := ids
+		if !c.thorough() {
+			vs = ids[int(c.res.Seed)%3 : int(c.res.Seed)%3+1]
+		}
+		for _, v := range vs {
+			v := v
+			pn := fmt.Sprintf("starve-%s/latest-round-first=true", v)
+			s, order, res := c.runSchedule(spc, c.res.Seed+6, func(*Sim) Policy { return policyStarve(v, true) })
+			c.checkRun(spc, c.res.Seed+6, pn, s, order, res, nil, shC)
+		}
+		nh := 3
+		if c.thorough() {
+			nh = 0
+		}
+		holdOne(spc, c.res.Seed+6, nil, shC, nh)
+	}
 	c07Sys.note(c, "C07 schedules")
 	// ---------- (c) TwoPartyHandler: Doerner keygen / sign ----------
 	c.c07TwoParty(nil)
